@@ -409,8 +409,17 @@ class ConfigParser(object):
     cp = _RawConfigParser()
     # cp.readfp(fp)
 
+    def without_bom(lines):
+      # Editors on Windows put a byte-order mark in front of UTF-8 text: it is not part of the first line.
+      for i, line in enumerate(lines):
+        if i == 0 and line.startswith(u"\ufeff"):
+          line = line[1:]
+        yield line
+
     try:    
-      cp.read_file(fp)
+      cp.read_file(without_bom(fp), source = getattr(fp, "name", None))
+    except UnicodeDecodeError as e:
+      raise ConfigParserException("Could not read configuration file, it is not text in the expected encoding: {}".format(e))
     except (configparser.DuplicateOptionError, configparser.DuplicateSectionError) as e:
       raise ConfigParserDuplicateEntryException(e.message)
     except configparser.Error as e:
